@@ -400,37 +400,44 @@ def shardedInit (c : Cfg) (ps : List (List Nat)) : Except Err ShardedLayout := d
       gExp := ⟨[n], .i32⟩
       locals := (ps.zip (indexStarts c ps 0)).map fun (s, ix) => localOf c s ix } : ShardedLayout)
 
-/-- `sharded_update_fn` on layouts: the local entries are carried through `_compute_stats` /
-`_transform_grad` of the converted `ParameterStats`, the global arrays are re-stacked -/
+/-- the per-parameter part of `sharded_update_fn`: the local entry is converted to `ParameterStats`
+(`_convert_to_parameter_stats`: slices `[:size, :size]` of the global statistics), carried through
+`_compute_stats` / `_transform_grad`, and converted back -/
+def shardedStepLocal (c : Cfg) (ms : Nat) (x : List Nat × LocalStats) : Except Err LocalStats := do
+  let (shape, l) := x
+  let st := l.sizes.map fun d => Mat.plain (f32Leaf [min d ms, min d ms])
+  let s : PStats := { ds := l.ds, st := st, pr := [], dm := l.dm, m := l.m, ag := l.ag, tm := l.tm }
+  let (st', ag) ← computeStats c shape s
+  let (ds, dm, m) ← transformGrad c shape s
+  -- `_maybe_quantize_statistics` would hand QuantizedValues to `pad_square_matrix` / `jnp.stack`
+  if c.quant2 then .error (.internal .update "quantized statistics in sharded mode")
+  -- `pad_square_matrix(stat, max_size)` raises when a statistic is larger than the padded size
+  else if st'.any (fun x => decide (x.dim0 > ms)) then .error (.internal .update "pad_square_matrix")
+  -- `_add_metrics_into_local_stats`: efficient_cond over (old metrics, sliced new metrics)
+  else if c.trainMetrics ∧ l.tm ≠ some ⟨l.sizes.length, c.genFd⟩ then
+    .error (.internal .update "metrics carry types")
+  else if st'.length ≠ l.sizes.length then .error (.internal .update "global statistics count")
+  else pure { l with ds := ds, dm := dm, m := m, ag := ag }
+
+def sumSizes (locals : List LocalStats) : Nat := (locals.map fun l => l.sizes.length).foldr (· + ·) 0
+
+/-- `sharded_update_fn` on layouts: local entries per parameter, the global arrays are re-stacked -/
 def shardedStep (c : Cfg) (ps : List (List Nat)) (L : ShardedLayout) : Except Err ShardedLayout :=
   if L.locals.length ≠ ps.length then .error (.internal .update "treedef.flatten_up_to")
   else
     let ms := (L.gStats.shape.drop 1).headD 0
     match rootReject c ms .update with
     | some e => .error e
-    | none => do
-      let locals ← mapE (fun (x : List Nat × LocalStats) => do
-          let (shape, l) := x
-          -- `_convert_to_parameter_stats`: slices `[:size, :size]` / `[:size, :precond_dim(size)]`
-          let st := l.sizes.map fun d => Mat.plain (f32Leaf [min d ms, min d ms])
-          let s : PStats := { ds := l.ds, st := st, pr := [], dm := l.dm, m := l.m, ag := l.ag, tm := l.tm }
-          let (st', ag) ← computeStats c shape s
-          let (ds, dm, m) ← transformGrad c shape s
-          -- `_maybe_quantize_statistics` would hand QuantizedValues to `pad_square_matrix` / `jnp.stack`
-          if c.quant2 then .error (.internal .update "quantized statistics in sharded mode")
-          -- `pad_square_matrix(stat, max_size)` raises when a statistic is larger than the padded size
-          else if st'.any (fun x => decide (x.dim0 > ms)) then .error (.internal .update "pad_square_matrix")
-          -- `_add_metrics_into_local_stats`: efficient_cond over (old metrics, sliced new metrics)
-          else if c.trainMetrics ∧ l.tm ≠ some ⟨l.sizes.length, c.genFd⟩ then
-            .error (.internal .update "metrics carry types")
-          else if st'.length ≠ l.sizes.length then .error (.internal .update "global statistics count")
-          else pure { l with ds := ds, dm := dm, m := m, ag := ag })
-        (ps.zip L.locals)
-      let n := (locals.map fun l => l.sizes.length).foldr (· + ·) 0
-      let tot := if n = 0 then c.ndev else n + negMod n c.ndev
-      -- `jnp.where(predicate, old preconditioners, new)`: broadcasting to one shape
-      if f32Leaf [tot, ms, precondDim c.r ms] ≠ L.gPrecond then .error (.internal .update "global preconditioner shape")
-      else pure { L with gStats := f32Leaf [tot, ms, ms], locals := locals }
+    | none =>
+      match mapE (shardedStepLocal c ms) (ps.zip L.locals) with
+      | .error e => .error e
+      | .ok locals =>
+        let n := sumSizes locals
+        let tot := if n = 0 then c.ndev else n + negMod n c.ndev
+        -- `jnp.where(predicate, old preconditioners, new)`: broadcasting to one shape
+        if f32Leaf [tot, ms, precondDim c.r ms] ≠ L.gPrecond then
+          .error (.internal .update "global preconditioner shape")
+        else .ok { L with gStats := f32Leaf [tot, ms, ms], locals := locals }
 
 /-! ### signatures of layouts -/
 
